@@ -37,6 +37,16 @@ FIXED_ABI = [
     'struct T { char c; alignas(8) short s; char d; };',
     'struct __attribute__((packed)) T { char c; int i; short s; long l; };',
     'struct T { char a[3]; short b[2][3]; long c[1]; };',
+    'struct T { int a : 8; int : 0; int b : 8; };',
+    'struct T { char c; int : 0; char d; };',
+    'struct T { short a : 16; short : 0; char d; };',
+    'struct T { char c; long : 0; char d; int e : 4; int : 0; };',
+    'struct T { int n; char d[]; };',
+    'struct T { long n; int d[]; };',
+    'struct T { char n; struct { short q; } d[]; };',
+    'union T { int a : 5; char c; };',
+    'union T { long l : 33; int : 0; char c[3]; };',
+    'struct T { char a; alignas(8) char b; char c; };',
     'struct T { _Bool b : 1; char c; };',
     'struct T { long long a : 40; int b : 20; char c; };',
     'struct T { short a : 7; short b : 7; short c : 7; };',
